@@ -180,6 +180,15 @@ class TransposePermutationLinearOperator(AbstractPermutationLinearOperator):
         self.m = m  # (m, m) is size of the reshaped input which is transposed
         self._dtype = dtype
 
+    def _get_indices(self, row_index, col_index, *batch_indices) -> torch.Tensor:
+        # (the operator has no tensors to interpolate: row i = a * m + b of P picks entry b * m + a)
+        source = (row_index % self.m) * self.m + torch.div(row_index, self.m, rounding_mode="floor")
+        return (col_index == source).to(self.dtype)
+
+    def _diagonal(self: Float[LinearOperator, "... M N"]) -> Float[torch.Tensor, "... N"]:
+        index = torch.arange(self.n)
+        return self._get_indices(index, index)
+
     def _matmul(
         self: Float[LinearOperator, "*batch M N"],
         rhs: Union[Float[torch.Tensor, "*batch2 N C"], Float[torch.Tensor, "*batch2 N"]],
